@@ -444,3 +444,46 @@ func similarity(a, b map[string]int, ignore func(string) bool) float64 {
 	}
 	return float64(inter) / float64(union)
 }
+
+
+// newUnimportedPackages: a package that does not exist on the reference tree, is not a command, and is imported by no
+// non-test file of the module cannot influence what the daemons do: nothing reachable from any entry point calls into
+// it (test fixtures, example helpers, a tool library not wired in yet). Its functions are treated like test code by
+// the censuses (writers of a field, callers of a setter, panic sites), exactly as `_test.go` files are.
+func newUnimportedPackages(pkgs []*types.Package) map[*types.Package]bool {
+	basePk := map[string]bool{}
+	for name := range baselineParams() {
+		// "(*a/b.T).m" | "(a/b.T).m" | "a/b.f" | "a/b.f$1"
+		n := strings.TrimLeft(name, "(*")
+		if i := strings.LastIndex(n, "."); i >= 0 {
+			n = n[:i]
+		}
+		if j := strings.LastIndex(n, "."); j >= 0 && strings.Contains(name, ")") {
+			n = n[:j]
+		}
+		basePk[n] = true
+	}
+	for _, l := range strings.Split(baselineFields, "\n") {
+		if i := strings.Index(l, "\t"); i > 0 {
+			k := l[:i]
+			if j := strings.LastIndex(k, "."); j >= 0 {
+				basePk[strings.TrimPrefix(strings.TrimPrefix(k[:j], Module+"/"), Module)] = true
+			}
+		}
+	}
+	imported := map[*types.Package]bool{}
+	for _, pk := range pkgs {
+		for _, im := range pk.Imports() {
+			imported[im] = true
+		}
+	}
+	out := map[*types.Package]bool{}
+	for _, pk := range pkgs {
+		rel := strings.TrimPrefix(strings.TrimPrefix(pk.Path(), Module+"/"), Module)
+		if pk.Name() == "main" || imported[pk] || basePk[rel] || strings.HasSuffix(pk.Path(), "_test") {
+			continue
+		}
+		out[pk] = true
+	}
+	return out
+}
